@@ -823,7 +823,7 @@ fn garbage(rng: &mut Rng, fq: bool) -> Vec<u8> {
 pub fn gen(tier: &str, rng: &mut Rng, out: &mut Vec<String>) {
     let thorough = tier == "thorough";
     let (n_w, n_lay, n_cut, n_raw, n_fx, n_big) =
-        if thorough { (5000, 5000, 2500, 20000, 2000, 60) } else { (500, 500, 260, 3000, 200, 4) };
+        if thorough { (5000, 5000, 2500, 20000, 2000, 60) } else { (1200, 1200, 500, 4500, 400, 6) };
     for i in 0..n_w {
         let fq = i % 2 == 1;
         let recs = gen_recs(rng, fq, 5, 40);
